@@ -88,6 +88,9 @@ type IdPSpec struct {
 	AuthQuery string   `json:"auth_query,omitempty"` // e.g. "?tenant=a%20b"
 	Knobs     IdPKnobs `json:"knobs"`
 	ServerCA  int      `json:"server_ca,omitempty"` // which CA signs the server certificate (https)
+	// SharedDisc: several providers (tenants/policies) share one host and ONE discovery path; the document is
+	// selected by the query (?p=<name>), as e.g. Azure AD B2C does.
+	SharedDisc bool `json:"shared_disc,omitempty"`
 }
 
 func (f *FilterSpec) CallbackURI() string {
